@@ -7,7 +7,8 @@
 (* orthogonal_blade_product_weight functions, _shared_metric_coeff and the *)
 (* double loop with zero pruning of MultiVector._generic_product, and the  *)
 (* sign tables of rev / invol / inv, inv() as a whole (which inputs it     *)
-(* answers), and __eq__ as dict equality.                                  *)
+(* answers), __eq__ as dict equality, and __add__ over the stored data     *)
+(* dicts of live objects (what it leaves behind in its operands).          *)
 (*                                                                         *)
 (* This layer never decides a verdict on the implementation.  TLC checks   *)
 (* that it refines the meaning (C18_Clifford) over the bounded space, and  *)
@@ -151,4 +152,29 @@ ImplEq(ta, tb) ==
         db == TreeDict(tb)
     IN  /\ DOMAIN da = DOMAIN db
         /\ \A k \in DOMAIN da : ImplCoefEq(da[k], db[k])
+
+(* The STORED data dicts of live objects (histories on one instance).  A    *)
+(* stored dict is a function bits -> rational in which a key may carry an   *)
+(* explicit zero (that is exactly what ==, hash, bool, get_pure_grade and   *)
+(* inv() of the real class look at).  __add__ returns a new dict and must   *)
+(* leave the dicts of both operands as they are: the unchanged code reads   *)
+(* them with dict.get(bits, 0).  Bug = "add_setdefault": the reads are      *)
+(* dict.setdefault(bits, 0), which stores the default into the operand.     *)
+DGet(d, k) == IF k \in DOMAIN d THEN d[k] ELSE Q0
+ImplAddD(sd, od) ==
+    LET all  == (DOMAIN sd) \cup (DOMAIN od)
+        sum  == [k \in all |-> QAdd(DGet(sd, k), DGet(od, k))]
+        keep == { k \in all : ~QIsZero(sum[k]) }
+        After(d) == IF Bug = "add_setdefault" THEN [k \in all |-> DGet(d, k)] ELSE d
+    IN  [res |-> [k \in keep |-> sum[k]], self |-> After(sd), other |-> After(od)]
+ImplNegD(d) == [k \in DOMAIN d |-> QNeg(d[k])]
+\* the observations of the class on a stored dict
+ImplEqD(d1, d2) == d1 = d2                   \* self.data == other.data
+ImplBoolD(d) == DOMAIN d # {}                \* bool(self.data)
+ImplPureGradeD(d) ==                         \* get_pure_grade(): -1 stands for None
+    LET gs == { BitCount(k) : k \in DOMAIN d }
+    IN  IF DOMAIN d = {} THEN 0
+        ELSE IF Cardinality(gs) = 1 THEN CHOOSE r \in gs : TRUE ELSE -1
+\* inv() looks at len(self.data) and get_pure_grade(): the stored keys, zeros included
+ImplInvD(d, n, g) == ImplInv(MVOfDict(d), n, g)
 =============================================================================
